@@ -684,8 +684,8 @@ class Dependency(object):
 
         # check for modified file_dep
         previous = self._get(task.name, 'deps:')
-        previous_set = set(previous) if previous else None
-        if previous_set and previous_set != task.file_dep:
+        previous_set = set(previous) if previous is not None else None
+        if previous_set is not None and previous_set != task.file_dep:
             if get_log:
                 added_files = sorted(list(task.file_dep - previous_set))
                 removed_files = sorted(list(previous_set - task.file_dep))
